@@ -7,7 +7,7 @@ import vlib
 
 PROP = "C15"
 READY = True
-COQ_PROPS = ['Properties_C15']
+COQ_PROPS = ['Properties_C15', 'Regression_bloom']
 RULE = ('operation scripts over several bloom_filter registers and harness-owned memory blocks: filters built by '
         'builder::create_by_size / create_by_accuracy (owned) and initialize_by_size / initialize_by_accuracy (in caller memory), '
         'sizes 1..5000 bits incl. non-multiples of 64, 1..7 (sometimes 0, 12, 100) hashes, seeds incl. 0 and 2^64-1; items of every '
@@ -31,9 +31,10 @@ ASSUMPTIONS = ['the false-positive-rate clause ("stays near the target") is stat
                'claims about a view of shared memory cover the items present when the view was created and those inserted '
                'through that view; what another, older view reports about items inserted behind its back is not claimed']
 
-HAZ = {1: 'wrap_after_update_stale_count',
-       2: 'qau_count_from_stale_cache',
-       3: 'readonly_setop_not_refused'}
+# hazard codes of the model's ghost state (repaired code): the count information of the lineage became inconsistent through
+# a query_and_update by a view whose cached count was stale (two live writable views of one block written alternately: each
+# view caches num_bits_set_ and writes it through) -- a known finding whose repair needs a design decision
+HAZ = {1: 'aliased_view_stale_count_written', 2: 'aliased_view_stale_count_written', 3: 'aliased_view_stale_count_written'}
 
 # ---------------------------------------------------------------------------------------------------------------------
 # generator
@@ -173,6 +174,8 @@ class G:
         r = self.anyf() if r is None else r
         b = self.anyb() if (self.b and rng.random() < 0.5) else self.create_buf()
         self.ops.append([14, r, b, rng.choice([0, 1])]); self.tags.add('serialize')
+        if self.cfg[0] <= 1100 and rng.random() < 0.7:
+            self.ops.append([20, b]); self.tags.add('image_bytes')
         return b
     def deser(self, b=None):
         b = self.anyb() if b is None else b
@@ -204,6 +207,9 @@ class G:
         elif k < 0.95 and len(self.f) > 2: self.ops.append([19, r]); self.f.pop(r, None)
         else: self.ops.append([12, 77])          # absent register
     def finale(self):
+        if self.cfg[0] <= 1100:
+            for b in sorted(self.b):
+                self.ops.append([20, b]); self.tags.add('image_bytes')
         for r in sorted(self.f):
             for it in self.universe[:8]:
                 self.ops.append([5, r] + it); self.q += 1
@@ -324,6 +330,10 @@ def regression_cases():
         [1, 1, 100, 3, 123], [6, 1] + u(5), [2, 101, 48], [14, 1, 101, 0], [16, 2, 101],
         [1, 3, 100, 3, 123], [6, 3] + u(77), [13, 2], [13, 3], [7, 2, 3], [13, 2], [11, 2], [12, 2], [13, 2], [9, 2], [13, 2], [11, 2],
         [13, 2], [13, 3], [8, 2, 3], [13, 2], [11, 2], [10, 2], [4, 2] + u(1), [6, 2] + u(1)]))
+    # two live writable views of one block written alternately (known finding aliased_view_stale_count_written)
+    cs.append(dict(id='reg_aliased_writers', tags=['regression', 'caller_memory', 'writable_wrap', 'qau'], ops=[
+        [2, 101, 48], [3, 1, 101, 100, 3, 123], [17, 2, 101], [6, 1] + u(5), [6, 2] + u(5), [5, 2] + u(5),
+        [16, 3, 101], [5, 3] + u(5), [12, 3], [11, 1], [5, 1] + u(5)]))
     return cs
 
 def gen(rng, tier):
